@@ -41,6 +41,10 @@ def cases(tier, seed):
         # a fixed far-away sphere listed BETWEEN the two fitted ones: the constrained pair is then not adjacent in the list
         c["mid"] = bool(c["two"] and ((i // 8) % 2 or (c["vkind"] == "constraint" and i % 2)))
         c["big"] = bool(c["mid"] and i % 3 != 2)
+        # explicit ties: the three radii of the big model are tied after construction (the far sphere's other parameters then lie
+        # between the second and the last tied parameter), names listed in either order
+        c["tie3"] = bool(c["big"] and c["vkind"] != "neg_radius" and (c["vkind"] != "constraint" or i % 2 == 0))
+        c["tie_reversed"] = bool(i % 5 == 0)
         if c["noise_src"] in ("channel_data", "channel_model"):
             c["optics_src"] = "data"; c["data_form"] = "image"
         out.append(c)
@@ -109,6 +113,12 @@ def run_case(case):
             members.insert(1, Sphere(n=pri["nm"], r=pri["rm"], center=[pri["xm"], pri["ym"], pri["zm"]]))
         elif case.get("mid"):
             members.insert(1, Sphere(n=1.55 * nmed / 1.33, r=0.3, center=[8.0, 0.7, 6.0]))
+        if case.get("tie3"):
+            # only equal priors can be tied: the other two radii get their own, equal copies of the first sphere's radius prior
+            import copy
+            pri["rm"], pri["r2"] = copy.deepcopy(pri["r"]), copy.deepcopy(pri["r"])
+            members[1] = Sphere(n=pri["nm"], r=pri["rm"], center=[pri["xm"], pri["ym"], pri["zm"]])
+            members[2] = Sphere(n=1.6 * nmed / 1.33, r=pri["r2"], center=[pri["x2"], 0.7, 6.0])
         scat = Spheres(members, warn=False)
     else:
         scat = s1
@@ -138,6 +148,13 @@ def run_case(case):
         model = AlphaModel(scat, alpha=0.85, theory=Mie, constraints=constraints, **kw)
     else:
         model = ExactModel(scat, calc_func=counter, theory=Mie, constraints=constraints, **kw)
+    tie_groups = []
+    if case.get("tie3"):
+        nm0, pl0 = list(model.parameters.keys()), list(model.parameters.values())
+        grp = ["r", "rm", "r2"]
+        tied_names = ["0:r", "1:r", "2:r"]
+        model.add_tie(tied_names[::-1] if case.get("tie_reversed") else tied_names)
+        tie_groups.append(grp)
     names = list(model.parameters.keys())
     plist = list(model.parameters.values())
     # ---- parameter vector
@@ -182,9 +199,9 @@ def run_case(case):
     # ---- independent reconstruction of the physical scatterer / optics from the values (by parameter *name*)
     def val_of(key, default=None):
         """value of the prior object `pri[key]`: find its parameter by identity-free means: bounds are unique per prior"""
-        p = pri[key]
+        keys = next((g for g in tie_groups if key in g), [key])      # tied priors share the one parameter that survives the tie
         for nm, q in zip(names, plist):
-            if type(q) is type(p) and q.renamed(None) == p.renamed(None):
+            if any(type(q) is type(pri[k]) and q.renamed(None) == pri[k].renamed(None) for k in keys):
                 return vals[nm]
         raise KeyError(key)
     invalid = val_of("r") < 0
